@@ -279,6 +279,24 @@ LAZY_ITERTOOLS = frozenset(['chain', 'from_iterable', 'islice', 'starmap', 'take
                             'compress', 'filterfalse', 'accumulate', 'pairwise'])
 
 
+def _is_generator_function_call(repo, fi, call):
+    """the call is to a generator function of the package (module-level, or a method of the same class through self)"""
+    target = None
+    if isinstance(call.func, ast.Name):
+        r = repo.resolve_global(fi.module, call.func.id)
+        if r is not None and r[0] == 'func':
+            target = r[1]
+    elif isinstance(call.func, ast.Attribute) and isinstance(call.func.value, ast.Name) and fi.cls is not None \
+            and fi.node.args.args and call.func.value.id == fi.node.args.args[0].arg:
+        target = repo.lookup_method(fi.cls, call.func.attr)
+    if target is None:
+        return False
+    for n in ast.walk(target.node):
+        if isinstance(n, (ast.Yield, ast.YieldFrom)):
+            return True
+    return False
+
+
 def rule_lazy_iterators(check, rule, module_names=('_signatures', '_autoforwards', 'modifiers', '_util', 'specifiers', 'wrappers')):
     """A generator expression (or map/filter/zip/... object) reads its source container when it is *consumed*, not where it
     is written.  If the container is emptied or edited between the two, the consumer sees the edited container: a
@@ -298,7 +316,8 @@ def rule_lazy_iterators(check, rule, module_names=('_signatures', '_autoforwards
             v = stmt.value
             lazy = isinstance(v, ast.GeneratorExp) or (isinstance(v, ast.Call) and isinstance(v.func, ast.Name) and v.func.id in LAZY_BUILTINS) \
                 or (isinstance(v, ast.Call) and isinstance(v.func, ast.Attribute) and norm(v.func).split('.')[0] in ('itertools', 'chain')
-                    and v.func.attr in LAZY_ITERTOOLS)
+                    and v.func.attr in LAZY_ITERTOOLS) \
+                or (isinstance(v, ast.Call) and _is_generator_function_call(repo, fi, v))
             if not lazy:
                 continue
             name = stmt.targets[0].id
